@@ -1,6 +1,7 @@
 package checks
 
 import (
+	"strings"
 	"fmt"
 
 	vmcommon "github.com/ElrondNetwork/elrond-vm-common"
@@ -77,6 +78,16 @@ func c03Profiles(tier Tier) []*explore.Profile {
 					}
 					out = append(out, explore.SeedState{Name: fmt.Sprintf("roles-%02x-other-%02x", m, om), W: sb.W, Legs: sb.Legs, Failed: sb.Failed})
 				}
+			}
+			// look-alike names (an undisciplined system contract stores whatever it is given): the
+			// account holds every role except r, plus names that extend, truncate or re-case r
+			for i, r := range uni.AllRoles {
+				m := 127 &^ (1 << i)
+				alikes := []string{r + "MultiShard", r + "X", r[:len(r)-1], strings.ToLower(r), strings.ToUpper(r), r + " ", " " + r, "ESDTRole", r + "\x00"}
+				sb := &uni.Builder{Env: env, W: clean}
+				sb.Must(uni.SetRole(uni.A0, uni.S, append(rolesOfMask(m), alikes...)...))
+				sb.Must(uni.SetRole(uni.A0, uni.F, append(rolesOfMask(m), alikes...)...))
+				out = append(out, explore.SeedState{Name: "look-alikes-of-" + r, W: sb.W, Legs: sb.Legs, Failed: sb.Failed})
 			}
 			return out
 		},
@@ -187,7 +198,7 @@ func c05Profiles(tier Tier) []*explore.Profile {
 		},
 		Menu: func(w *world.World) []world.Action { return kvMenu(w, tier) },
 	}
-	return []*explore.Profile{frame, kv, highNonceProfile("high-nonce", tier, orc, 2)}
+	return []*explore.Profile{frame, kv, highNonceProfile("high-nonce", tier, orc, 2), highNonceAliasedProfile("high-nonce-aliased", tier, orc, 1)}
 }
 
 func kvKeys(w *world.World) [][]byte {
@@ -449,8 +460,19 @@ func c08Profiles(tier Tier) []*explore.Profile {
 					b3.Fail("two-creators-refund: the refused delivery did not leave a refund in flight")
 				}
 			}
+			// hashes that differ only in letter case ("h" is the hash of the sft seed's creations)
+			b4 := uni.SeedBuilder(env, "sft")
+			b4.Must(uni.SetRole(uni.E2, uni.S, uni.NFTRoles...))
+			b4.Must(createWith(uni.E2, uni.S, metaTuple{name: []byte("n"), roy: uni.Big(5), hash: []byte("H"), attr: []byte("a"), uris: [][]byte{[]byte("u")}, q: 3}))
+			// hashes that are invalid UTF-8 at the same position and differ there
+			b5 := uni.NewBuilder(env)
+			b5.Must(uni.SetRole(uni.A0, uni.S, uni.NFTRoles...))
+			b5.Must(uni.SetRole(uni.E2, uni.S, uni.NFTRoles...))
+			b5.Must(createWith(uni.A0, uni.S, metaTuple{name: []byte("n"), roy: uni.Big(5), hash: []byte{0xff, 0x01}, attr: []byte("a"), uris: [][]byte{[]byte("u")}, q: 3}))
+			b5.Must(createWith(uni.E2, uni.S, metaTuple{name: []byte("n"), roy: uni.Big(5), hash: []byte{0xfe, 0x01}, attr: []byte("a"), uris: [][]byte{[]byte("u")}, q: 3}))
 			return []explore.SeedState{{Name: "two-creators", W: b.W, Legs: b.Legs, Failed: b.Failed}, {Name: "two-creators-empty-hash", W: b2.W, Legs: b2.Legs, Failed: b2.Failed},
-				{Name: "two-creators-refund", W: b3.W, Legs: b3.Legs, Failed: b3.Failed}}
+				{Name: "two-creators-refund", W: b3.W, Legs: b3.Legs, Failed: b3.Failed}, {Name: "two-creators-letter-case", W: b4.W, Legs: b4.Legs, Failed: b4.Failed},
+				{Name: "two-creators-invalid-utf8", W: b5.W, Legs: b5.Legs, Failed: b5.Failed}}
 		},
 		Menu: func(w *world.World) []world.Action { return hopMenu(w, o, uni.S, []int64{1}, false) },
 	}
